@@ -1,0 +1,15 @@
+//go:build verif
+
+// Contracts for the tvc verifier (/verif). Comment-only: with the `verif` tag off this file does not exist,
+// with it on it adds no code. Syntax: /verif/DESIGN.md appendix A.
+
+package podeni
+
+//@ for C15
+
+//@ func podNumaHints
+//@   panics
+
+//@ func ReconcilePodENI.getENIIndex
+//@   requires m != nil && m.client != nil && m.nodeStatusCache != nil
+//@   panics
